@@ -10,7 +10,7 @@ LEVEL = 'exploration'
 RULE = ('(i) G1: programs derived from ECMA-262 5.1 Annex A with the dictated tree known by construction, '
         'rendered under 4 layout levels; (ii) G2: every string of <= n tokens (n=3 quick, 4 thorough) over a '
         '29-token alphabet, joined by single spaces; (iii) G3: single-token mutations (delete/insert/replace/'
-        'duplicate/swap) and subtree-level mutations (the token range of a node duplicated, deleted, swapped with or replaced by another node\'s) of G1 outputs and of the repository test snippets. Oracle: acceptance equals the '
+        'duplicate/swap) and subtree-level mutations (the token range of a node duplicated, deleted, swapped with or replaced by another node\'s) of G1 outputs and of the repository test snippets; (iv) exhaustively, every BMP character whose general category makes it an identifier character both in Unicode 3.2 and in the current database, in first and in later position of an identifier. Oracle: acceptance equals the '
         'reference front end R1 (both directions) and canonical trees are equal (for G1 also equal to the '
         'constructed tree). non-trivial = both accept and the tree has >= 4 node kinds and depth >= 3, or R1 '
         'rejects after consuming >= 2 tokens; distinct by source text')
@@ -46,6 +46,8 @@ def plan(tier, seed):
     for k in range(16 if tier == 'quick' else 32):
         shards.append({'name': 'g3-%d' % k, 'kind': 'g3', 'n': n_mut // (16 if tier == 'quick' else 32),
                        'hseed': seed * 1000 + 500 + k})
+    for k in range(16):
+        shards.append({'name': 'ids-%d' % k, 'kind': 'ids', 'k': k, 'of': 16})
     return shards
 
 
@@ -157,6 +159,22 @@ def run_shard(shard):
                 acc.label('kind_' + k)
             acc.label('g1_calmjs_%s' % info.get('calmjs'))
         run_given(gen_program.program_strategy(), body, shard['n'], shard['hseed'], acc)
+    elif kind == 'ids':
+        # every BMP character that is an identifier character under any Unicode version >= 3.0, in first and
+        # in later position of an identifier (exhaustive; 40 declarations per program)
+        chars = [(c, True) for c in gen_program.STABLE_START] + [(c, False) for c in gen_program.STABLE_PART]
+        mine = chars[shard['k']::shard['of']]
+        n = 0
+        for i in range(0, len(mine), 40):
+            names = []
+            for c, is_start in mine[i:i + 40]:
+                names.append((c + 'q' + c) if is_start else ('q' + c + '_' + c))
+            text = 'var ' + ', '.join(names) + ';'
+            info = check_text(acc, text, opens, None, 'ids')
+            n += len(names)
+            acc.case(text, False, {'text': text} if i % 4000 == 0 else None)
+            acc.label('ids_%s_%s' % (info.get('calmjs'), info.get('ref')))
+        acc.extra['identifier_characters_swept'] = n
     elif kind == 'g2':
         for idx in range(shard['lo'], shard['hi']):
             toks = gen_tokens.string_at(idx)
